@@ -21,6 +21,14 @@ def main(argv):
         sanity.startup_checks(verbose=True)
         return 0
     if cmd == "replay":
+        import json
+
+        with open(argv[1]) as f:
+            hs = json.load(f).get("hashseed")
+        if hs is not None and os.environ.get("PYTHONHASHSEED") != str(hs):
+            # re-exec under the interpreter hash seed the violation was found with
+            env2 = dict(os.environ, PYTHONHASHSEED=str(hs))
+            os.execve(sys.executable, [sys.executable, "-X", "faulthandler", "-m", "sim.main"] + argv, env2)
         return runner.replay(argv[1])
     if cmd == "digest":
         from . import selftest
